@@ -1,3 +1,506 @@
 package taskprops
 
-func runTrialChild(args []string) bool { return false }
+import (
+	"encoding/json"
+	"flag"
+	"fmt"
+	"image"
+	"image/color"
+	"math"
+	"os"
+	"os/exec"
+	"sync"
+
+	"github.com/mandykoh/prism"
+	"github.com/mandykoh/prism/adobergb"
+	"github.com/mandykoh/prism/ciexyy"
+	"github.com/mandykoh/prism/ciexyz"
+	"github.com/mandykoh/prism/displayp3"
+	"github.com/mandykoh/prism/prophotorgb"
+	"github.com/mandykoh/prism/srgb"
+
+	"verif.local/sim/core"
+	"verif.local/sim/props"
+	"verif.local/sim/simio"
+	"verif.local/sim/tape"
+	"verif.local/simrt"
+)
+
+// C11 — all conversions are safe for concurrent use, including the very first
+// use.
+type c11 struct{}
+
+func init() { register(c11{}) }
+
+func (c11) ID() string    { return "C11" }
+func (c11) Level() string { return "exploration" }
+func (c11) Rule() string {
+	return "each trial is a fresh OS process (package state cannot be reset): N in {2,3,4,8} caller tasks each execute 1-6 drawn operations (From16Bit/To16Bit/From8Bit/To8Bit of the three curve packages; LineariseColor/EncodeColor of the four spaces; LineariseImage/EncodeImage and ConvertImageToRGBA64 on task-private images with parallelism 1-4, i.e. nested worker tasks; Bradford adaptation; the four loaders on task-private simulated sources) under a drawn schedule (SERIAL-PERM, RANDOM-WALK, PCT d<=3, SITE-BIAS with preemption points inside */lut.go and the worker closures); in first-use trials the first operation of at least two tasks needs the same lazily built table. A second simulated phase in the same process exercises subsequent calls. Oracles: (1) the race detector, which cannot see the simulator's hand-offs, reports nothing; (2) every operation's result during the run == its result re-evaluated sequentially after the final join == its solo value computed in another process; (3) no deadlock, no panic. Non-trivial: >= 2 caller tasks executed instrumented steps and (first-use trials) touched the same table; distinct = hash of the (task, site) step sequences of both phases."
+}
+func (c11) Exhaustive(string) string { return "" }
+func (c11) Runs(tier string) int64 {
+	if tier == "thorough" {
+		return 30000
+	}
+	return 640
+}
+func (c11) Prefix(string, int64) []uint64 { return nil }
+
+// ---------------------------------------------------------------- operations
+
+type opSpec struct {
+	Kind    int
+	Space   int // 0 srgb, 1 adobergb, 2 prophotorgb, 3 displayp3
+	A, B, C uint32
+}
+
+const (
+	opFrom16 = iota
+	opTo16
+	opFrom8
+	opTo8
+	opLineariseColor
+	opEncodeColor
+	opLineariseImage
+	opEncodeImage
+	opConvertImage
+	opAdapt
+	opLoad
+	nOps
+)
+
+var opNames = [...]string{"From16Bit", "To16Bit", "From8Bit", "To8Bit", "LineariseColor", "EncodeColor", "LineariseImage", "EncodeImage", "ConvertImageToRGBA64", "Bradford.Apply", "meta.Load"}
+var spaceNames = [...]string{"srgb", "adobergb", "prophotorgb", "displayp3"}
+
+func (o opSpec) String() string {
+	switch o.Kind {
+	case opAdapt:
+		return "ciexyz.AdaptBetweenXYYWhitePoints(D65,D50).Apply"
+	case opLoad:
+		return fmt.Sprintf("loader %d on corpus file %d", o.A%4, o.B)
+	case opConvertImage:
+		return fmt.Sprintf("prism.ConvertImageToRGBA64(YCbCr, par %d)", 1+o.B%3)
+	}
+	return fmt.Sprintf("%s.%s(%#x)", spaceNames[o.Space], opNames[o.Kind], o.A)
+}
+
+// table index a (space, kind) pair needs on first use: 0..5 = {srgb,adobe,prophoto} x {from16,to16}; -1 none
+func tableOf(o opSpec) int {
+	sp := o.Space
+	if sp == 3 {
+		sp = 0 // Display P3 borrows sRGB's tables
+	}
+	switch o.Kind {
+	case opFrom16, opLineariseColor, opLineariseImage:
+		return sp * 2
+	case opTo16, opEncodeColor, opEncodeImage:
+		return sp*2 + 1
+	}
+	return -1
+}
+
+func drawOp(t *tape.Tape, forceTable int) opSpec {
+	var o opSpec
+	if forceTable >= 0 {
+		sp := forceTable / 2
+		if sp == 0 && t.Chance(1, 3) {
+			sp = 3
+		}
+		o.Space = sp
+		dir := forceTable % 2
+		var kinds []int
+		if dir == 0 {
+			kinds = []int{opFrom16, opFrom16, opLineariseColor, opLineariseImage}
+		} else {
+			kinds = []int{opTo16, opTo16, opEncodeColor, opEncodeImage}
+		}
+		o.Kind = kinds[t.Intn(len(kinds))]
+		if sp == 3 && (o.Kind == opFrom16 || o.Kind == opTo16) {
+			o.Kind = kinds[2]
+		}
+	} else {
+		o.Kind = t.Pick(3, 3, 1, 1, 3, 3, 2, 2, 1, 1, 2)
+		o.Space = t.Intn(4)
+		if o.Space == 3 && o.Kind <= opTo8 {
+			o.Space = t.Intn(3)
+		}
+	}
+	o.A, o.B, o.C = t.U32(), t.U32(), t.U32()
+	return o
+}
+
+var spaceFns = [4]struct {
+	lin, enc       func(color.Color) color.RGBA64
+	linImg, encImg func(dst *image.RGBA64, src *image.RGBA64, par int)
+}{
+	{srgb.LineariseColor, srgb.EncodeColor, func(d, s *image.RGBA64, p int) { srgb.LineariseImage(d, s, p) }, func(d, s *image.RGBA64, p int) { srgb.EncodeImage(d, s, p) }},
+	{adobergb.LineariseColor, adobergb.EncodeColor, func(d, s *image.RGBA64, p int) { adobergb.LineariseImage(d, s, p) }, func(d, s *image.RGBA64, p int) { adobergb.EncodeImage(d, s, p) }},
+	{prophotorgb.LineariseColor, prophotorgb.EncodeColor, func(d, s *image.RGBA64, p int) { prophotorgb.LineariseImage(d, s, p) }, func(d, s *image.RGBA64, p int) { prophotorgb.EncodeImage(d, s, p) }},
+	{displayp3.LineariseColor, displayp3.EncodeColor, func(d, s *image.RGBA64, p int) { displayp3.LineariseImage(d, s, p) }, func(d, s *image.RGBA64, p int) { displayp3.EncodeImage(d, s, p) }},
+}
+
+func hashBytes(h uint64, b []byte) uint64 {
+	for _, c := range b {
+		h = tape.SplitMix64(h ^ uint64(c))
+	}
+	return h
+}
+
+// execOp executes one operation on task-private data and digests its result.
+func execOp(o opSpec) uint64 {
+	f01 := func(x uint32) float32 { return float32(x%100001)/100000*1.2 - 0.1 }
+	switch o.Kind {
+	case opFrom16:
+		var v float32
+		switch o.Space {
+		case 0:
+			v = srgb.From16Bit(uint16(o.A))
+		case 1:
+			v = adobergb.From16Bit(uint16(o.A))
+		default:
+			v = prophotorgb.From16Bit(uint16(o.A))
+		}
+		return uint64(math.Float32bits(v))
+	case opTo16:
+		switch o.Space {
+		case 0:
+			return uint64(srgb.To16Bit(f01(o.A)))
+		case 1:
+			return uint64(adobergb.To16Bit(f01(o.A)))
+		default:
+			return uint64(prophotorgb.To16Bit(f01(o.A)))
+		}
+	case opFrom8:
+		var v float32
+		switch o.Space {
+		case 0:
+			v = srgb.From8Bit(uint8(o.A))
+		case 1:
+			v = adobergb.From8Bit(uint8(o.A))
+		default:
+			v = prophotorgb.From8Bit(uint8(o.A))
+		}
+		return uint64(math.Float32bits(v))
+	case opTo8:
+		switch o.Space {
+		case 0:
+			return uint64(srgb.To8Bit(f01(o.A)))
+		case 1:
+			return uint64(adobergb.To8Bit(f01(o.A)))
+		default:
+			return uint64(prophotorgb.To8Bit(f01(o.A)))
+		}
+	case opLineariseColor, opEncodeColor:
+		a := uint16(o.C) | 0x8000
+		c := color.RGBA64{R: uint16(o.A) % (a + 1), G: uint16(o.A>>16) % (a + 1), B: uint16(o.B) % (a + 1), A: a}
+		var r color.RGBA64
+		if o.Kind == opLineariseColor {
+			r = spaceFns[o.Space].lin(c)
+		} else {
+			r = spaceFns[o.Space].enc(c)
+		}
+		return uint64(r.R)<<48 | uint64(r.G)<<32 | uint64(r.B)<<16 | uint64(r.A)
+	case opLineariseImage, opEncodeImage:
+		w, h := 2+int(o.A%3), 2+int(o.A>>8%4)
+		src := image.NewRGBA64(image.Rect(0, 0, w, h))
+		tape.NewRand(uint64(o.B)).Fill(src.Pix)
+		for i := 6; i < len(src.Pix); i += 8 {
+			src.Pix[i] = 0xFF // opaque-ish alpha keeps channels <= alpha mostly irrelevant
+		}
+		dst := image.NewRGBA64(src.Rect)
+		par := 1 + int(o.C%4)
+		if o.Kind == opLineariseImage {
+			spaceFns[o.Space].linImg(dst, src, par)
+		} else {
+			spaceFns[o.Space].encImg(dst, src, par)
+		}
+		return hashBytes(uint64(w*16+h), dst.Pix)
+	case opConvertImage:
+		src := image.NewYCbCr(image.Rect(0, 0, 3+int(o.A%3), 3+int(o.A>>8%3)), image.YCbCrSubsampleRatio420)
+		r := tape.NewRand(uint64(o.C))
+		r.Fill(src.Y)
+		r.Fill(src.Cb)
+		r.Fill(src.Cr)
+		out := prism.ConvertImageToRGBA64(src, 1+int(o.B%3))
+		return hashBytes(7, out.Pix)
+	case opAdapt:
+		ad := ciexyz.AdaptBetweenXYYWhitePoints(ciexyy.D65, ciexyy.D50)
+		c := ad.Apply(ciexyz.Color{X: f01(o.A), Y: f01(o.B), Z: f01(o.C)})
+		return uint64(math.Float32bits(c.X)) ^ uint64(math.Float32bits(c.Y))<<20 ^ uint64(math.Float32bits(c.Z))<<40
+	case opLoad:
+		cs := props.Corpus()
+		var small []props.CorpusFile
+		for _, c := range cs {
+			if len(c.Data) < 20000 {
+				small = append(small, c)
+			}
+		}
+		f := small[int(o.B)%len(small)]
+		l := props.Loaders[o.A%4]
+		src := simio.NewSource(simio.Bytes(f.Data), simio.Config{TruncAt: -1, ErrAt: -1, Policy: simio.Fixed, K: 1 + int(o.C%5000)})
+		res := props.SafeLoad(l, src)
+		v := props.View(res)
+		h := tape.HashString(fmt.Sprintf("%v|%s|%d|%d|%d|%d|%v|%s", v.OK, v.Format, v.W, v.H, v.Bits, v.ICCLen, v.ICCNil, v.ICCErr))
+		if res.Panic != nil {
+			h ^= 0xDEAD
+		}
+		return h
+	}
+	return 0
+}
+
+// ---------------------------------------------------------------- trial
+
+type phaseSpec struct {
+	Tasks  [][]opSpec
+	Sched  *simrt.Schedule
+	ScDesc string
+	Table  int // first-use table shared by >= 2 tasks (-1 none)
+}
+
+type trialSpec struct {
+	Phases [2]phaseSpec
+}
+
+func drawPhase(t *tape.Tape, firstUse bool) phaseSpec {
+	var p phaseSpec
+	n := [...]int{2, 3, 4, 8}[t.Pick(4, 3, 2, 1)]
+	p.Table = -1
+	sharers := 0
+	if firstUse {
+		p.Table = t.Intn(6)
+		sharers = 2 + t.Intn(n-1)
+	}
+	for i := 0; i < n; i++ {
+		k := 1 + t.Pick(3, 2, 2, 1, 1, 1)
+		var ops []opSpec
+		for j := 0; j < k; j++ {
+			force := -1
+			if j == 0 && i < sharers {
+				force = p.Table
+			}
+			ops = append(ops, drawOp(t, force))
+		}
+		p.Tasks = append(p.Tasks, ops)
+	}
+	p.Sched, p.ScDesc = DrawSchedule(t, [4]int{3, 2, 3, 4})
+	return p
+}
+
+func drawTrial(t *tape.Tape) trialSpec {
+	var tr trialSpec
+	tr.Phases[0] = drawPhase(t, t.Chance(5, 6))
+	tr.Phases[1] = drawPhase(t, false)
+	return tr
+}
+
+type phaseResult struct {
+	During   [][]uint64 `json:"during"`
+	Post     [][]uint64 `json:"post"`
+	Panics   []string   `json:"panics,omitempty"`
+	Races    int        `json:"races"`
+	RaceText string     `json:"race_text,omitempty"`
+	Deadlock bool       `json:"deadlock"`
+	Steps    int64      `json:"steps"`
+	NSwitch  int        `json:"nswitch"`
+	SeqHash  uint64     `json:"seqhash"`
+	Switches []string   `json:"switches"`
+	Probes   [16]int64  `json:"probes"`
+	Stepped  int        `json:"tasks_stepped"`
+	Tasks    int        `json:"tasks"`
+}
+
+func runPhase(p phaseSpec) phaseResult {
+	var pr phaseResult
+	n := len(p.Tasks)
+	pr.During = make([][]uint64, n)
+	pr.Post = make([][]uint64, n)
+	panics := make([]string, n)
+	for i := range p.Tasks {
+		pr.During[i] = make([]uint64, len(p.Tasks[i]))
+		pr.Post[i] = make([]uint64, len(p.Tasks[i]))
+	}
+	before := simrt.RaceErrors()
+	var wg sync.WaitGroup // the caller's own, race-visible join
+	res := simrt.Run(p.Sched, func() {
+		for i := 0; i < n; i++ {
+			i := i
+			wg.Add(1)
+			simrt.Go(func() {
+				defer wg.Done()
+				defer func() {
+					if r := recover(); r != nil {
+						panics[i] = fmt.Sprint(r)
+					}
+				}()
+				for j, o := range p.Tasks[i] {
+					pr.During[i][j] = execOp(o)
+				}
+			})
+		}
+	})
+	if !res.Deadlock {
+		wg.Wait()
+	}
+	pr.Races = simrt.RaceErrors() - before
+	if pr.Races > 0 {
+		pr.RaceText = trimText(NewRaceText(), 12000)
+	}
+	pr.Deadlock = res.Deadlock
+	pr.Steps, pr.NSwitch, pr.SeqHash, pr.Probes = res.Steps, res.NSwitch, res.SeqHash, res.Probes
+	pr.Switches = SwitchList(res)
+	pr.Stepped, pr.Tasks = res.TasksStepped, res.Tasks
+	for _, s := range panics {
+		if s != "" {
+			pr.Panics = append(pr.Panics, s)
+		}
+	}
+	if !res.Deadlock {
+		for i := range p.Tasks {
+			for j, o := range p.Tasks[i] {
+				pr.Post[i][j] = execOp(o)
+			}
+		}
+	}
+	return pr
+}
+
+// runTrialChild is the body of `tasksim trial`: a fresh process that replays the
+// tape, runs both phases under the simulator and prints what happened.
+func runTrialChild(args []string) bool {
+	fs := flag.NewFlagSet("trial", flag.ExitOnError)
+	tf := fs.String("tape", "", "")
+	fs.Parse(args)
+	b, err := os.ReadFile(*tf)
+	if err != nil {
+		fmt.Println("HARNESS-ERROR:", err)
+		os.Exit(2)
+	}
+	var vals []uint64
+	if err := json.Unmarshal(b, &vals); err != nil {
+		fmt.Println("HARNESS-ERROR:", err)
+		os.Exit(2)
+	}
+	props.Corpus() // load shared read-only inputs before any task runs
+	tr := drawTrial(tape.Replay(vals))
+	var out [2]phaseResult
+	out[0] = runPhase(tr.Phases[0])
+	if !out[0].Deadlock {
+		out[1] = runPhase(tr.Phases[1])
+	}
+	if p := raceLogPath(); p != "" {
+		os.Remove(p)
+	}
+	json.NewEncoder(os.Stdout).Encode(out)
+	return true
+}
+
+func (c11) Run(t *tape.Tape, st *Stats) *Violation {
+	st.Evals++
+	props.Corpus()
+	tr := drawTrial(t)
+	// solo values: this worker process evaluates every operation on its own,
+	// outside any simulated run, one after the other
+	var solo [2][][]uint64
+	for ph := range tr.Phases {
+		for _, ops := range tr.Phases[ph].Tasks {
+			var row []uint64
+			for _, o := range ops {
+				row = append(row, execOp(o))
+			}
+			solo[ph] = append(solo[ph], row)
+		}
+	}
+	dir := os.Getenv("VERIF_RACELOG_DIR")
+	if dir == "" {
+		dir = os.TempDir()
+	}
+	f, err := os.CreateTemp(dir, "trial-*.json")
+	if err != nil {
+		panic(&core.HarnessError{Msg: "cannot create trial tape file: " + err.Error()})
+	}
+	tb, _ := json.Marshal(t.Vals)
+	f.Write(tb)
+	f.Close()
+	defer os.Remove(f.Name())
+	exe, _ := os.Executable()
+	cmd := exec.Command(exe, "trial", "-tape", f.Name())
+	cmd.Env = append(os.Environ(), "GOMAXPROCS="+[...]string{"1", "4", "16"}[int(t.Seed%3)])
+	outb, err := cmd.Output()
+	var out [2]phaseResult
+	if jerr := json.Unmarshal(outb, &out); jerr != nil {
+		stderr := ""
+		if ee, ok := err.(*exec.ExitError); ok {
+			stderr = string(ee.Stderr)
+		}
+		return &Violation{Class: "panic", Sig: "trial-process-died", Detail: fmt.Sprintf("the trial process produced no result (err=%v): %s %s", err, trimText(string(outb), 800), trimText(stderr, 3000))}
+	}
+	firstUse := tr.Phases[0].Table >= 0
+	tables := [...]string{"srgb.encoded16ToLinear", "srgb.linearToEncoded16", "adobergb.encoded16ToLinear", "adobergb.linearToEncoded16", "prophotorgb.encoded16ToLinear", "prophotorgb.linearToEncoded16"}
+	cls := "subsequent-only"
+	if firstUse {
+		cls = "first-use:" + tables[tr.Phases[0].Table]
+	}
+	st.Class(cls)
+	for ph := range out {
+		st.Steps += out[ph].Steps
+		st.Digest = tape.Mix(st.Digest, out[ph].SeqHash, uint64(out[ph].NSwitch))
+		st.Fault("preemption", tr.Phases[ph].Sched.Kind != simrt.SerialPerm, out[ph].NSwitch > len(tr.Phases[ph].Tasks)+2)
+		st.Fault("preemption_inside_lut_or_worker", tr.Phases[ph].Sched.Kind == simrt.SiteBias, out[ph].Probes[simrt.ProbeHotPreempt] > 0)
+		st.Probe("task_blocked_on_once", out[ph].Probes[simrt.ProbeBlockedOnOnce] > 0)
+		st.Probe("preempted_inside_once", out[ph].Probes[simrt.ProbePreemptedInsideOnce] > 0)
+		st.Probe("nested_worker_tasks", out[ph].Probes[simrt.ProbeNested] > 0)
+	}
+	st.LogHash(tape.Mix(out[0].SeqHash, out[1].SeqHash))
+	st.Probe("first_use_trial", firstUse)
+	if out[0].Stepped >= 3 { // root + >= 2 callers
+		st.Mark(tape.Mix(out[0].SeqHash, out[1].SeqHash))
+	}
+	render := func() interface{} {
+		var phases []interface{}
+		for ph := range tr.Phases {
+			var tasks []string
+			for i, ops := range tr.Phases[ph].Tasks {
+				s := fmt.Sprintf("task %d:", i+1)
+				for _, o := range ops {
+					s += " " + o.String() + ";"
+				}
+				tasks = append(tasks, s)
+			}
+			phases = append(phases, map[string]interface{}{"tasks": tasks, "schedule": tr.Phases[ph].ScDesc, "steps": out[ph].Steps,
+				"context_switches": out[ph].Switches, "races": out[ph].Races, "race_report": trimText(out[ph].RaceText, 5000), "panics": out[ph].Panics})
+		}
+		return map[string]interface{}{"kind": cls, "phases": phases}
+	}
+	if st.WantSample() {
+		st.Sample(render())
+	}
+	for ph := range out {
+		o := out[ph]
+		name := [...]string{"first phase", "second phase (subsequent calls)"}[ph]
+		if o.Races > 0 {
+			coarse, detail := RaceSignature(o.RaceText)
+			return &Violation{Class: "data-race", Sig: "data-race:" + coarse, Detail: fmt.Sprintf("%s: %d race report(s), first: %s [%s]", name, o.Races, detail, tr.Phases[ph].ScDesc), Render: render()}
+		}
+		if len(o.Panics) > 0 {
+			return &Violation{Class: "panic", Sig: "panic", Detail: fmt.Sprintf("%s: %v", name, o.Panics), Render: render()}
+		}
+		if o.Deadlock {
+			return &Violation{Class: "deadlock", Sig: "deadlock", Detail: name + ": all tasks blocked [" + tr.Phases[ph].ScDesc + "]", Render: render()}
+		}
+		for i := range o.During {
+			for j := range o.During[i] {
+				d, p, s := o.During[i][j], o.Post[i][j], solo[ph][i][j]
+				if d != p || p != s {
+					op := tr.Phases[ph].Tasks[i][j]
+					return &Violation{Class: "value-differs", Sig: "value-differs:" + opNames[op.Kind],
+						Detail: fmt.Sprintf("%s: task %d op %d %s returned %#x during the run, %#x after the join, %#x alone [%s]", name, i+1, j, op, d, p, s, tr.Phases[ph].ScDesc), Render: render()}
+				}
+			}
+		}
+		if ph == 0 && o.Deadlock {
+			break
+		}
+	}
+	return nil
+}
